@@ -347,6 +347,42 @@ def _rv(fr):
     return z3.RealVal(str(fr))
 
 
+class NaNQ:
+    """Not-a-number: absorbs every arithmetic operation (missing data)."""
+    __slots__ = ()
+
+    def _same(self, *a, **k): return self
+    __add__ = __radd__ = __sub__ = __rsub__ = __mul__ = __rmul__ = _same
+    __truediv__ = __rtruediv__ = __pow__ = __rpow__ = __neg__ = _same
+    __abs__ = __pos__ = conjugate = conj = sqrt = exp = log = log10 = _same
+    real = property(_same)
+    imag = property(_same)
+
+    def abs2(self): return self
+    def _false(self, o): return False
+    __lt__ = __le__ = __gt__ = __ge__ = __eq__ = _false
+    def __ne__(self, o): return True
+    __hash__ = object.__hash__
+    def __bool__(self): return True
+    def isnan_(self): return True
+    def isfinite_(self): return False
+    def __float__(self): return float('nan')
+    def __complex__(self): return complex('nan')
+    def __repr__(self): return 'NaNQ'
+    def __format__(self, spec): return 'nan'
+
+
+NAN = NaNQ()
+
+
+def _is_nan_const(o):
+    if isinstance(o, (float, np.floating)):
+        return o != o
+    if isinstance(o, (complex, np.complexfloating)):
+        return o.real != o.real or o.imag != o.imag
+    return False
+
+
 class Q:
     """Exact real scalar: concrete Fraction (c) or z3 Real term (t)."""
     __slots__ = ('c', '_t')
@@ -404,6 +440,8 @@ class Q:
 
     # -- arithmetic
     def __add__(self, o):
+        if o is NAN or _is_nan_const(o):
+            return NAN
         if isinstance(o, Qc):
             return Qc(self, 0).__add__(o)
         if isinstance(o, (complex, np.complexfloating)) and o.imag != 0:
@@ -429,6 +467,8 @@ class Q:
         return self
 
     def __sub__(self, o):
+        if o is NAN or _is_nan_const(o):
+            return NAN
         if isinstance(o, Qc) or (
                 isinstance(o, (complex, np.complexfloating)) and o.imag != 0):
             return Qc(self, 0).__sub__(o)
@@ -442,6 +482,8 @@ class Q:
         return Q(self.t-o.t)
 
     def __rsub__(self, o):
+        if o is NAN or _is_nan_const(o):
+            return NAN
         if isinstance(o, (complex, np.complexfloating)) and o.imag != 0:
             return Qc(o.real, o.imag).__sub__(self)
         o = Q._co(o)
@@ -450,6 +492,8 @@ class Q:
         return o.__sub__(self)
 
     def __mul__(self, o):
+        if o is NAN or _is_nan_const(o):
+            return NAN
         if isinstance(o, Qc) or (
                 isinstance(o, (complex, np.complexfloating)) and o.imag != 0):
             return Qc(self, 0).__mul__(o)
@@ -479,6 +523,8 @@ class Q:
         return Q(ctx().recip(self.t))
 
     def __truediv__(self, o):
+        if o is NAN or _is_nan_const(o):
+            return NAN
         if isinstance(o, Qc) or (
                 isinstance(o, (complex, np.complexfloating)) and o.imag != 0):
             return Qc(self, 0).__truediv__(o)
@@ -488,6 +534,8 @@ class Q:
         return self*o.recip()
 
     def __rtruediv__(self, o):
+        if o is NAN or _is_nan_const(o):
+            return NAN
         if isinstance(o, (complex, np.complexfloating)) and o.imag != 0:
             return Qc(o.real, o.imag)*self.recip()
         o = Q._co(o)
@@ -654,6 +702,8 @@ class Qc:
     def _co(o):
         if isinstance(o, Qc):
             return o
+        if o is NAN or _is_nan_const(o):
+            return None          # -> NotImplemented -> NaNQ's reflected op
         if isinstance(o, Q):
             return Qc(o, 0)
         if isinstance(o, np.ndarray):
@@ -669,6 +719,8 @@ class Qc:
         return Qc(Q(f), 0)
 
     def __add__(self, o):
+        if o is NAN or _is_nan_const(o):
+            return NAN
         o = Qc._co(o)
         if o is None:
             return NotImplemented
@@ -676,12 +728,16 @@ class Qc:
     __radd__ = __add__
 
     def __sub__(self, o):
+        if o is NAN or _is_nan_const(o):
+            return NAN
         o = Qc._co(o)
         if o is None:
             return NotImplemented
         return Qc(self.re-o.re, self.im-o.im)
 
     def __rsub__(self, o):
+        if o is NAN or _is_nan_const(o):
+            return NAN
         o = Qc._co(o)
         if o is None:
             return NotImplemented
@@ -694,6 +750,8 @@ class Qc:
         return self
 
     def __mul__(self, o):
+        if o is NAN or _is_nan_const(o):
+            return NAN
         o = Qc._co(o)
         if o is None:
             return NotImplemented
@@ -705,6 +763,8 @@ class Qc:
         return Qc(self.re*d, -(self.im*d))
 
     def __truediv__(self, o):
+        if o is NAN or _is_nan_const(o):
+            return NAN
         o = Qc._co(o)
         if o is None:
             return NotImplemented
@@ -730,6 +790,23 @@ class Qc:
     def conjugate(self):
         return Qc(self.re, -self.im)
     conj = conjugate
+
+    def exp(self):
+        """exp(i*u) for real symbolic u: a unit-modulus pair (c, s)."""
+        if not (self.re.c is not None and self.re.c == 0):
+            raise TypeError("symx: exp of a general complex number")
+        c = ctx()
+        key = ('cis', z3.simplify(self.im.t).get_id())
+        hit = c.recips.get(key)
+        if hit is None:
+            co, si = c.fresh('cos'), c.fresh('sin')
+            c.keep.append(z3.simplify(self.im.t))
+            c.side.append(co*co+si*si == 1)
+            c._feas = None
+            c.recips[key] = (self.im.t, (co, si))
+        else:
+            co, si = hit[1]
+        return Qc(Q(co), Q(si))
 
     @property
     def real(self): return self.re
